@@ -228,6 +228,9 @@ impl Player {
         if bytes == self.probe_rt {
             return "code:probe".into();
         }
+        if bytes.len() == 24577 && bytes.iter().all(|x| *x == 0) {
+            return "code:big".into();
+        }
         if bytes.len() == 32 && bytes[0..24].iter().all(|x| *x == 0) {
             return format!("w:{}", u64::from_be_bytes(bytes[24..32].try_into().unwrap()));
         }
@@ -358,6 +361,7 @@ impl Player {
                 "cell" => asm::initcode(&self.cell_rt),
                 "probe" => asm::initcode(&self.probe_rt),
                 "bad" => vec![0x5f, 0x5f, 0xfd], // PUSH0 PUSH0 REVERT
+                "big" => vec![0x62, 0x00, 0x60, 0x01, 0x5f, 0xf3], // PUSH3 24577 PUSH0 RETURN: 24577 bytes of STOP, one over EIP-170
                 _ => vec![0xfe],
             };
             return ("create".into(), bytes);
@@ -1155,6 +1159,8 @@ impl Player {
                 "cell"
             } else if cs == hexs(&self.probe_rt) {
                 "probe"
+            } else if cs.len() == 2 + 2 * 24577 && cs[2..].bytes().all(|x| x == b'0') {
+                "big"
             } else if a == "ctrl" {
                 "ctrl"
             } else if a.starts_with("c_ctrl_") {
